@@ -94,7 +94,7 @@ def got_rows(res):
 
 def check_tables(case, res, step):
     """ids within the spec's bounds (exact when `full`), no parameter value changed"""
-    ref = [sorted({r[k] for r in step["ev"]}) for k in range(3)]
+    ref = [sorted(ids) for ids in step["tmin"]]          # the ids the interaction rows reference
     for k, (kind, tab) in enumerate((("e", res.environments), ("l", res.learners), ("v", res.evaluators))):
         idc = PCOLS[kind][0]
         ids = list(tab[idc]) if len(tab) else []
